@@ -27,6 +27,32 @@ def check_grid(g, form='text'):
     a, b = HV.abs_grid(g), HV.abs_grid(back)
     if not HV.same(a, b, TOL):
         return 'round trip changed the grid: %r -> %r' % (a, b)
+    r = remove_spelling(g)
+    if r:
+        return r
+    return None
+
+
+def remove_spelling(g):
+    """2.0 grids spell Remove "x:", 3.0 grids "-:" - wherever it stands (grid metadata, column metadata, cells, inside collections)"""
+    import hszinc
+    doc = json.loads(hszinc.dump(g, mode=hszinc.MODE_JSON))
+    ver = str(doc.get('meta', {}).get('ver'))
+    wrong = '-:' if ver.startswith('2') else 'x:'
+    found = []
+
+    def walk(x, where):
+        if isinstance(x, dict):
+            for k, v in x.items():
+                walk(v, where + '/' + str(k))
+        elif isinstance(x, list):
+            for i, v in enumerate(x):
+                walk(v, where + '/%d' % i)
+        elif x == wrong:
+            found.append(where)
+    walk(doc, '')
+    if found:
+        return 'a ver %s grid spells Remove %r at %s' % (ver, wrong, ', '.join(found[:3]))
     return None
 
 
